@@ -10,6 +10,11 @@
 // input object, `x` = only report null / non-null (`W`), the check passes `x` where the oracle
 // says the object has been released).
 //
+// or one GENERATED history per line (large structured histories, synthesized from a few parameters
+// exactly as lean/Driver/C11.lean `GSpec` and tools/props/c11.py `GSpec` do; output = digests):
+//
+//   G <variant> <relmask> <memmask> <cb> <maxbuf> <wr> <fixed> | <shape> <n> <k> <ro> <sg> <st> <kd> <miss> <dup> <extra> <ni> <q> <seed> | E
+//
 // Output: same line format as the model driver.
 #include "common.hpp"
 
@@ -20,8 +25,10 @@
 #include <osmium/relations/relations_manager.hpp>
 #include <osmium/visitor.hpp>
 
+#include <cstdint>
 #include <cstdlib>
 #include <cstring>
+#include <functional>
 #include <map>
 #include <string>
 #include <utility>
@@ -48,11 +55,135 @@ struct OpSpec {
     char hint;
 };
 
+// result of a lookup: 0 nullptr, 1 not the input object (or not inspected), 2 the input object
+struct Res {
+    int status;
+    long long id;
+    unsigned long long content;
+    const char* note; // text for status 1
+};
+
+struct Look {
+    char kind;
+    long long ref;
+    Res res;
+};
+
+inline std::uint64_t dg_mix(std::uint64_t x) {
+    std::uint64_t z = x + 0x9E3779B97F4A7C15ULL;
+    z = (z ^ (z >> 30)) * 0xBF58476D1CE4E5B9ULL;
+    z = (z ^ (z >> 27)) * 0x94D049BB133111EBULL;
+    return z ^ (z >> 31);
+}
+
+inline std::uint64_t dg_hm(std::uint64_t seed, std::uint64_t a, std::uint64_t b) {
+    return dg_mix(dg_mix(seed + a) + b);
+}
+
+inline std::uint64_t dg_step(std::uint64_t h, std::uint64_t x) {
+    const std::uint64_t z = (h ^ x) * 0x9E3779B97F4A7C15ULL;
+    return z ^ (z >> 32);
+}
+
+inline std::uint64_t dg_kc(char k) {
+    return k == 'n' ? 1 : k == 'w' ? 2 : 3;
+}
+
 struct Ctx {
     unsigned rm = 15;
     unsigned mm = 255;
     std::size_t wr = 0;
+    // text mode: the events as strings; digest mode (G lines): running digest, see lean/Driver/C11.lean `Digest`
+    bool digest = false;
+    bool report_not_in = true;
+    std::uint64_t dh = 0;
+    std::uint64_t da = 0;
+    std::size_t dobjs = 0;
+    std::size_t devs = 0;
+    std::vector<std::uint64_t> dcks;
     std::vector<std::string> events;
+
+    static std::string res_str(const Res& r) {
+        if (r.status == 0) {
+            return "-";
+        }
+        if (r.status == 2) {
+            return std::to_string(r.id) + ":" + std::to_string(r.content) + ":1";
+        }
+        return r.note;
+    }
+
+    void ev_complete(long long rid, const std::vector<Look>& looks, const char* suffix) {
+        if (digest) {
+            std::uint64_t e = dg_step(1, static_cast<std::uint64_t>(rid));
+            for (const auto& l : looks) {
+                const bool good = l.res.status == 2 && l.res.id == l.ref;
+                e = dg_step(e, dg_kc(l.kind));
+                e = dg_step(e, static_cast<std::uint64_t>(l.ref));
+                e = dg_step(e, l.res.status == 0 ? 0 : good ? 2 : 1);
+                e = dg_step(e, good ? l.res.content : 0);
+            }
+            if (suffix[0]) {
+                e = dg_step(e, 99);
+            }
+            da += e;
+            ++devs;
+            return;
+        }
+        std::string ev = "C " + std::to_string(rid) + " ";
+        bool first = true;
+        for (const auto& l : looks) {
+            if (!first) {
+                ev += ",";
+            }
+            first = false;
+            ev += l.kind;
+            ev += std::to_string(l.ref);
+            ev += "=";
+            ev += res_str(l.res);
+        }
+        ev += suffix;
+        events.push_back(ev);
+    }
+
+    void ev_not_in(char k, long long id) {
+        if (digest) {
+            if (report_not_in) {
+                da += dg_step(dg_step(2, dg_kc(k)), static_cast<std::uint64_t>(id));
+                ++devs;
+            }
+            return;
+        }
+        events.push_back(std::string{"N "} + k + std::to_string(id));
+    }
+
+    void ev_query(char k, long long id, const Res& r) {
+        if (digest) {
+            const bool good = r.status == 2 && r.id == id;
+            const std::uint64_t st = r.status == 0 ? 0 : good ? 2 : 1;
+            dh = dg_step(dg_step(dg_step(dg_step(dg_step(dh, da), 3), dg_kc(k)), static_cast<std::uint64_t>(id)),
+                         st * 4294967296ULL + (good ? r.content : 0));
+            da = 0;
+            if (k == 'n' && id == 0) {
+                ++dobjs;
+                if (dobjs % 4096 == 0) {
+                    dcks.push_back(dh);
+                }
+            }
+            return;
+        }
+        events.push_back(std::string{"Q "} + k + std::to_string(id) + "=" + res_str(r));
+    }
+
+    void ev_thrown() {
+        if (digest) {
+            dh = dg_step(dg_step(dh, da), 4);
+            da = 0;
+            return;
+        }
+        events.emplace_back("T");
+    }
+
     // raw bytes of every second-pass input object, by (kind, id)
     std::map<std::pair<char, long long>, std::string> input_bytes;
     std::size_t flushes = 0;
@@ -77,19 +208,19 @@ unsigned long long content_of(const osmium::OSMObject& o) {
     return v ? std::strtoull(v, nullptr, 10) : 0ULL;
 }
 
-// "<id>:<content>:1" if the object returned for (kind, id) is bytewise identical to the input
-// object with that id (only then is it parsed); "?:?:0" otherwise — memory that is not known to
+// status 2 ("<id>:<content>:1") if the object returned for (kind, id) is bytewise identical to the input
+// object with that id (only then is it parsed); status 1 ("?:?:0") otherwise — memory that is not known to
 // be a valid object is never interpreted (a dangling pointer may point at anything).
-std::string describe(Ctx& ctx, char kind, long long id, const osmium::OSMObject* obj) {
+Res describe(Ctx& ctx, char kind, long long id, const osmium::OSMObject* obj) {
     if (!obj) {
-        return "-";
+        return Res{0, 0, 0, ""};
     }
     const auto it = ctx.input_bytes.find({kind, id});
     if (it == ctx.input_bytes.end() ||
         std::memcmp(it->second.data(), reinterpret_cast<const char*>(obj), it->second.size()) != 0) {
-        return "?:?:0";
+        return Res{1, 0, 0, "?:?:0"};
     }
-    return std::to_string(obj->id()) + ":" + std::to_string(content_of(*obj)) + ":1";
+    return Res{2, obj->id(), content_of(*obj), ""};
 }
 
 void write_output(osmium::memory::Buffer& buffer, std::size_t wr) {
@@ -116,8 +247,7 @@ public:
     }
 
     void complete_relation(const osmium::Relation& relation) {
-        std::string ev = "C " + std::to_string(relation.id()) + " ";
-        bool first = true;
+        std::vector<Look> looks;
         for (const auto& member : relation.members()) {
             if (member.ref() == 0) {
                 continue;
@@ -129,29 +259,22 @@ public:
                 k == 'n' ? static_cast<const osmium::OSMObject*>(this->get_member_node(member.ref())) :
                 k == 'w' ? static_cast<const osmium::OSMObject*>(this->get_member_way(member.ref())) :
                            static_cast<const osmium::OSMObject*>(this->get_member_relation(member.ref()));
-            if (!first) {
-                ev += ",";
-            }
-            first = false;
-            ev += k;
-            ev += std::to_string(member.ref());
-            ev += "=";
-            ev += obj == obj2 ? describe(*ctx, k, member.ref(), obj) : std::string{"accessor-mismatch"};
+            looks.push_back(Look{k, member.ref(), obj == obj2 ? describe(*ctx, k, member.ref(), obj) : Res{1, 0, 0, "accessor-mismatch"}});
         }
-        ctx->events.push_back(ev);
+        ctx->ev_complete(relation.id(), looks, "");
         write_output(this->buffer(), ctx->wr);
     }
 
     void node_not_in_any_relation(const osmium::Node& node) {
-        ctx->events.push_back("N n" + std::to_string(node.id()));
+        ctx->ev_not_in('n', node.id());
     }
 
     void way_not_in_any_relation(const osmium::Way& way) {
-        ctx->events.push_back("N w" + std::to_string(way.id()));
+        ctx->ev_not_in('w', way.id());
     }
 
     void relation_not_in_any_relation(const osmium::Relation& relation) {
-        ctx->events.push_back("N r" + std::to_string(relation.id()));
+        ctx->ev_not_in('r', relation.id());
     }
 
 }; // class TestManager
@@ -172,25 +295,17 @@ public:
     }
 
     bool operator()(const osmium::Relation& relation, const std::vector<const osmium::Way*>& ways, osmium::memory::Buffer& out) {
-        std::string ev = "C " + std::to_string(relation.id()) + " ";
+        std::vector<Look> looks;
         std::size_t i = 0;
         for (const auto& member : relation.members()) {
             if (member.ref() == 0) {
                 continue;
             }
-            if (i > 0) {
-                ev += ",";
-            }
-            ev += kind_char(member.type());
-            ev += std::to_string(member.ref());
-            ev += "=";
-            ev += i < ways.size() ? describe(*m_config.ctx, 'w', member.ref(), ways[i]) : std::string{"missing-way"};
+            looks.push_back(Look{kind_char(member.type()), member.ref(),
+                                 i < ways.size() ? describe(*m_config.ctx, 'w', member.ref(), ways[i]) : Res{1, 0, 0, "missing-way"}});
             ++i;
         }
-        if (i != ways.size()) {
-            ev += ",extra-ways";
-        }
-        m_config.ctx->events.push_back(ev);
+        m_config.ctx->ev_complete(relation.id(), looks, i != ways.size() ? ",extra-ways" : "");
         write_output(out, m_config.ctx->wr);
         return true;
     }
@@ -291,7 +406,8 @@ const osmium::OSMObject* lookup(TManager& manager, char kind, long long id) {
 
 template <typename TManager>
 std::string run_history(TManager& manager, Ctx& ctx, bool report_not_in, bool use_callback,
-                        const std::vector<RelSpec>& rels, const std::vector<OpSpec>& ops) {
+                        const std::vector<RelSpec>& rels, const std::vector<OpSpec>& ops, std::uint64_t hist_digest = 0) {
+    ctx.report_not_in = report_not_in;
     // ---- first pass
     {
         osmium::memory::Buffer buffer{4096, osmium::memory::Buffer::auto_grow::yes};
@@ -321,45 +437,59 @@ std::string run_history(TManager& manager, Ctx& ctx, bool report_not_in, bool us
             try {
                 osmium::apply_item(item, handler);   // no flush() here: that is the F op
             } catch (const osmium::out_of_order_error&) {
-                ctx.events.emplace_back("T");
+                ctx.ev_thrown();
                 thrown = true;
             }
         } else if (op.op == 'F') {
             handler.flush();
         } else {
             const osmium::OSMObject* obj = lookup(manager, op.kind, op.id);
-            std::string ev = std::string{"Q "} + op.kind + std::to_string(op.id) + "=";
             if (!obj) {
-                ev += "-";
+                ctx.ev_query(op.kind, op.id, Res{0, 0, 0, ""});
             } else if (op.hint == 'x') {
-                ev += "W";
+                ctx.ev_query(op.kind, op.id, Res{1, 0, 0, "W"});
             } else {
-                ev += describe(ctx, op.kind, op.id, obj);
+                ctx.ev_query(op.kind, op.id, describe(ctx, op.kind, op.id, obj));
             }
-            ctx.events.push_back(ev);
         }
     }
     handler.flush();
 
     std::string out;
-    for (const auto& e : ctx.events) {
-        if (!report_not_in && e[0] == 'N') {
-            continue;
+    if (ctx.digest) {
+        const std::uint64_t hfin = dg_step(ctx.dh, ctx.da);
+        out += "G ops=" + std::to_string(ctx.dobjs) + " ev=" + std::to_string(ctx.devs) + " ck=";
+        for (const auto c : ctx.dcks) {
+            out += std::to_string(c) + ",";
         }
-        out += e;
-        out += " ; ";
-    }
-    out += "I ";
-    bool first = true;
-    manager.for_each_incomplete_relation([&](const osmium::relations::RelationHandle& handle) {
-        if (!first) {
-            out += ",";
+        out += std::to_string(hfin) + " hist=" + std::to_string(hist_digest) + " ; I ";
+        std::size_t cnt = 0;
+        std::uint64_t idig = 0;
+        manager.for_each_incomplete_relation([&](const osmium::relations::RelationHandle& handle) {
+            ++cnt;
+            idig = dg_step(idig, static_cast<std::uint64_t>(handle->id()));
+        });
+        out += std::to_string(cnt) + " " + std::to_string(idig);
+    } else {
+        for (const auto& e : ctx.events) {
+            if (!report_not_in && e[0] == 'N') {
+                continue;
+            }
+            out += e;
+            out += " ; ";
         }
-        first = false;
-        out += std::to_string(handle->id());
-    });
-    if (first) {
-        out += "-";
+        out += "I ";
+        bool first = true;
+        manager.for_each_incomplete_relation([&](const osmium::relations::RelationHandle& handle) {
+            if (!first) {
+                out += ",";
+            }
+            first = false;
+            out += std::to_string(handle->id());
+        });
+        if (first) {
+            out += "-";
+        }
     }
     out += " ; S " + std::to_string(manager.relations_database().count_relations()) + "/" +
            std::to_string(manager.relations_database().size()) +
@@ -375,10 +505,166 @@ std::string run_history(TManager& manager, Ctx& ctx, bool report_not_in, bool us
 }
 
 template <bool N, bool W, bool R>
-std::string run_test_manager(Ctx& ctx, bool cb, const std::vector<RelSpec>& rels, const std::vector<OpSpec>& ops) {
+std::string run_test_manager(Ctx& ctx, bool cb, const std::vector<RelSpec>& rels, const std::vector<OpSpec>& ops, std::uint64_t hd) {
     TestManager<N, W, R> manager;
     manager.ctx = &ctx;
-    return run_history(manager, ctx, true, cb, rels, ops);
+    return run_history(manager, ctx, true, cb, rels, ops, hd);
+}
+
+// ---- generated histories: the same arithmetic as `GSpec` in lean/Driver/C11.lean ------------------
+
+struct GSpec {
+    std::uint64_t shape, n, k, ro, sg, st, kd, miss, dup, extra, ni, q, seed;
+
+    char kind_of(std::uint64_t j) const {
+        switch (kd) {
+            case 0: return 'w';
+            case 1: return "nwr"[j % 3];
+            case 2: return 'n';
+            default: return 'r';
+        }
+    }
+
+    std::uint64_t mag(std::uint64_t j) const {
+        return 10 + j * st;
+    }
+
+    bool neg(std::uint64_t j) const {
+        return sg == 1 || (sg == 2 && j % 3 == 0) || (sg == 3 && j < 2);
+    }
+
+    long long id_of(std::uint64_t j) const {
+        return neg(j) ? -static_cast<long long>(mag(j)) : static_cast<long long>(mag(j));
+    }
+
+    std::uint64_t n_rels() const {
+        switch (shape) {
+            case 0: case 1: return n * k;
+            case 3: return 1 + n / k;
+            default: return n;
+        }
+    }
+
+    std::vector<std::uint64_t> member_idx(std::uint64_t i) const {
+        std::vector<std::uint64_t> js;
+        switch (shape) {
+            case 0: js.push_back(i % n); break;
+            case 1: js.push_back(i / k); break;
+            case 2: for (std::uint64_t t = 0; t < k; ++t) { js.push_back((i + t) % n); } break;
+            case 3:
+                if (i == 0) {
+                    for (std::uint64_t j = 0; j < n; ++j) { js.push_back(j); }
+                } else {
+                    js.push_back((i - 1) * k);
+                }
+                break;
+            case 4: js.push_back(i); js.push_back(n - 1 - i); break;
+            case 5: {
+                const std::uint64_t w = 1 + dg_hm(seed, i, 3) % k;
+                for (std::uint64_t t = 0; t < w; ++t) { js.push_back(dg_hm(seed, i, 10 + t) % n); }
+                break;
+            }
+            default:
+                js.push_back(i);
+                if (i % k == 0) { js.push_back(0); }
+                break;
+        }
+        if (dup > 0 && i % dup == 0) {
+            js.push_back(js.empty() ? 0 : js[0]);
+        }
+        return js;
+    }
+
+    RelSpec rel(std::uint64_t i) const {
+        const std::uint64_t cc = (ni > 0 && i % ni == ni - 1) ? 2 : dg_hm(seed, i, 2) % 2;
+        RelSpec r{static_cast<long long>(i) + 1, 4 * (dg_hm(seed, i, 1) % 250) + cc, {}};
+        for (const auto j : member_idx(i)) {
+            r.members.push_back(MemberSpec{kind_of(j), id_of(j)});
+        }
+        return r;
+    }
+
+    std::uint64_t perm(std::uint64_t p) const {
+        const std::uint64_t r = n_rels();
+        switch (ro) {
+            case 0: return p;
+            case 1: return r - 1 - p;
+            default: return p % 2 == 0 ? p / 2 : r - 1 - p / 2;
+        }
+    }
+
+    unsigned long long content(char k, long long id) const {
+        const std::uint64_t a = static_cast<std::uint64_t>(id < 0 ? -id : id);
+        return dg_hm(seed ^ 0x55, a, dg_kc(k) * 2 + (id < 0 ? 1 : 0)) % 100000;
+    }
+
+    std::vector<OpSpec> ops() const {
+        std::vector<OpSpec> objs;
+        for (const char kd_ : {'n', 'w', 'r'}) {
+            for (const bool neg_pass : {true, false}) {
+                for (std::uint64_t j = 0; j < n; ++j) {
+                    if (kind_of(j) == kd_ && neg(j) == neg_pass) {
+                        if (!(miss > 0 && j % miss == miss - 1)) {
+                            objs.push_back(OpSpec{'O', kd_, id_of(j), content(kd_, id_of(j)), 'd'});
+                        }
+                        if (extra > 0 && st >= 2 && j % extra == 0) {
+                            const long long id = neg_pass ? -(static_cast<long long>(mag(j)) + 1) : static_cast<long long>(mag(j)) + 1;
+                            objs.push_back(OpSpec{'O', kd_, id, content(kd_, id), 'd'});
+                        }
+                    }
+                    if (kd == 0 && kd_ == 'n' && !neg_pass && extra > 0 && j % (extra * 7) == 0) {
+                        const long long id = static_cast<long long>(mag(j));
+                        objs.push_back(OpSpec{'O', 'n', id, content('n', id), 'd'});
+                    }
+                }
+            }
+        }
+        std::vector<OpSpec> out;
+        std::uint64_t p = 0;
+        for (const auto& o : objs) {
+            out.push_back(o);
+            out.push_back(OpSpec{'Q', 'n', 0, 0, 'd'});
+            if (q > 0 && p % q == q - 1) {
+                const std::uint64_t j = dg_hm(seed, p, 7) % n;
+                out.push_back(OpSpec{'Q', kind_of(j), id_of(j), 0, 'd'});
+            }
+            if (p % 1000 == 999) {
+                out.push_back(OpSpec{'F', 'n', 0, 0, 'd'});
+            }
+            ++p;
+        }
+        if (q > 0) {
+            for (std::uint64_t j = 0; j < n; ++j) {
+                out.push_back(OpSpec{'Q', kind_of(j), id_of(j), 0, 'd'});
+            }
+        }
+        return out;
+    }
+};
+
+std::uint64_t hist_digest_of(const std::vector<RelSpec>& rels, const std::vector<OpSpec>& ops) {
+    std::uint64_t i = 1;
+    std::uint64_t s = 0;
+    const auto add = [&](std::uint64_t x) { s += i * x; ++i; };
+    for (const auto& r : rels) {
+        add(static_cast<std::uint64_t>(r.id));
+        add(r.content);
+        add(r.members.size());
+        for (const auto& m : r.members) {
+            add(dg_kc(m.kind));
+            add(static_cast<std::uint64_t>(m.ref));
+        }
+    }
+    for (const auto& o : ops) {
+        if (o.op == 'O') {
+            add(5); add(dg_kc(o.kind)); add(static_cast<std::uint64_t>(o.id)); add(o.content);
+        } else if (o.op == 'Q') {
+            add(6); add(dg_kc(o.kind)); add(static_cast<std::uint64_t>(o.id));
+        } else {
+            add(7);
+        }
+    }
+    return s;
 }
 
 std::string run_line(const std::string& line) {
@@ -391,9 +677,10 @@ std::string run_line(const std::string& line) {
             secs.back().push_back(w);
         }
     }
-    if (secs[0].size() != 8 || secs[0][0] != "H") {
+    if (secs[0].size() != 8 || (secs[0][0] != "H" && secs[0][0] != "G")) {
         return "bad-op";
     }
+    const bool gen = secs[0][0] == "G";
     Ctx ctx;
     const std::string variant = secs[0][1];
     ctx.rm = static_cast<unsigned>(std::stoul(secs[0][2]));
@@ -402,7 +689,29 @@ std::string run_line(const std::string& line) {
     ctx.wr = std::stoull(secs[0][6]);
     std::vector<RelSpec> rels;
     std::vector<OpSpec> ops;
-    for (std::size_t i = 1; i < secs.size(); ++i) {
+    std::uint64_t hd = 0;
+    if (gen) {
+        if (secs.size() < 2 || secs[1].size() != 13) {
+            return "bad-op";
+        }
+        std::uint64_t v[13];
+        for (int i = 0; i < 13; ++i) {
+            v[i] = std::stoull(secs[1][i]);
+        }
+        const GSpec g{v[0], v[1], v[2], v[3], v[4], v[5], v[6], v[7], v[8], v[9], v[10], v[11], v[12]};
+        if (g.n == 0 || g.k == 0) {
+            return "bad-op";
+        }
+        const std::uint64_t nr = g.n_rels();
+        rels.reserve(nr);
+        for (std::uint64_t p = 0; p < nr; ++p) {
+            rels.push_back(g.rel(g.perm(p)));
+        }
+        ops = g.ops();
+        hd = hist_digest_of(rels, ops);
+        ctx.digest = true;
+    }
+    for (std::size_t i = 1; !gen && i < secs.size(); ++i) {
         const auto& s = secs[i];
         if (s.empty() || s[0] == "E") {
             continue;
@@ -425,18 +734,18 @@ std::string run_line(const std::string& line) {
     }
     if (variant == "mp") {
         MPManager manager{TrivialAssembler::config_type{&ctx}};
-        return run_history(manager, ctx, false, cb, rels, ops);
+        return run_history(manager, ctx, false, cb, rels, ops, hd);
     }
     const bool n = variant.find('n') != std::string::npos;
     const bool w = variant.find('w') != std::string::npos;
     const bool r = variant.find('r') != std::string::npos;
-    if (n && w && r) return run_test_manager<true, true, true>(ctx, cb, rels, ops);
-    if (n && w && !r) return run_test_manager<true, true, false>(ctx, cb, rels, ops);
-    if (n && !w && r) return run_test_manager<true, false, true>(ctx, cb, rels, ops);
-    if (!n && w && r) return run_test_manager<false, true, true>(ctx, cb, rels, ops);
-    if (n && !w && !r) return run_test_manager<true, false, false>(ctx, cb, rels, ops);
-    if (!n && w && !r) return run_test_manager<false, true, false>(ctx, cb, rels, ops);
-    if (!n && !w && r) return run_test_manager<false, false, true>(ctx, cb, rels, ops);
+    if (n && w && r) return run_test_manager<true, true, true>(ctx, cb, rels, ops, hd);
+    if (n && w && !r) return run_test_manager<true, true, false>(ctx, cb, rels, ops, hd);
+    if (n && !w && r) return run_test_manager<true, false, true>(ctx, cb, rels, ops, hd);
+    if (!n && w && r) return run_test_manager<false, true, true>(ctx, cb, rels, ops, hd);
+    if (n && !w && !r) return run_test_manager<true, false, false>(ctx, cb, rels, ops, hd);
+    if (!n && w && !r) return run_test_manager<false, true, false>(ctx, cb, rels, ops, hd);
+    if (!n && !w && r) return run_test_manager<false, false, true>(ctx, cb, rels, ops, hd);
     return "bad-op";
 }
 
